@@ -11,6 +11,8 @@ R7.8  every member of HTTPMethod passes the path-item key filter of parse_operat
 R7.9  CLEAN strategy: the path-derived suffix compared with the lower-cased id is itself case-folded (string-shape interpretation)
 R7.10 a rendered method is never served from a cache keyed by the operation alone (rendering registers imports in the current module's context)
 R7.11 sanitize_method_name returns a valid ASCII identifier for every input (string-shape interpretation)              [= R20.1]
+R7.12 no key of the Paths Object other than an `x-` extension is taken out before parse_operations sees it (filter evaluated per key)
+R7.13 the list of rendered methods reaches the class writer whole: never re-bound / shortened, written element by element without a skip
 R7.7  the tag grouping key is at least as coarse as the module / class names derived from a tag (no two groups share a file)
 R7.5  no filter between grouping and emission: every operation of a tag is visited, every tag yields a file, a
       class entry and an APIClient property
@@ -235,6 +237,8 @@ def run(repo: Repo, rep: Report, tier: str) -> None:
         rep.violation("R7.4", "class/module derivation emitter <-> APIClient", f"naming-disagree|{n1}|{n2}",
                       f"tag client class/module names are derived differently: emitter {n1}, client visitor {n2}", emit.loc())
 
+    rule_paths_unfiltered(repo, rep, "R7.12")
+    rule_every_method_written(repo, rep, "R7.13")
     # ---------------------------------------------------------------- R7.5 no filter between grouping and emission
     def _has_call(n: ast.AST, attr: str) -> bool:
         return any(isinstance(c.func, ast.Attribute) and c.func.attr == attr for c in calls_in(n))
@@ -502,3 +506,142 @@ def rule_method_filter_total(repo: Repo, rep, rule: str = "R7.8") -> None:
                       "or error, its method is missing on the tag client and a tag used only by such operations loses its module", po.loc(use.ast))
     else:
         rep.ok(rule, sub, f"all {len(members)} HTTPMethod members ({', '.join(x.lower() for x in members)}) pass the {len(gs)} skip test(s)", po.loc(use.ast))
+
+
+# ------------------------------------------------------------------------------------------------ R7.12 every entry of `paths` reaches the operations parser
+_R712_EXAMPLE = '''
+class SpecLoader:
+    def __init__(self, spec):
+        self.paths = {p: item for p, item in spec["paths"].items() if isinstance(p, str) and p.startswith("/")}
+'''
+PATH_KEYS = ["/pets", "/pets/{petId}", "pets/{petId}", "{id}", "v1/items", "x-internal", "x-", ""]
+
+
+def _paths_filters(tree: ast.AST):
+    """[(comprehension / filter node, rejected keys)] for every filtered copy of the document's `paths` mapping that leaves out a key that is
+    not a specification extension (`x-...`): the filter condition is evaluated for each key of PATH_KEYS."""
+    from sa.feval import Unknown, evaluate
+
+    out, n, unknown = [], 0, []
+    for c in ast.walk(tree):
+        if not isinstance(c, (ast.DictComp, ast.ListComp, ast.GeneratorExp)):
+            continue
+        for g in c.generators:
+            src = norm(g.iter)
+            if "paths" not in src or not g.ifs:
+                continue
+            n += 1
+            kv = g.target.elts[0] if isinstance(g.target, ast.Tuple) and g.target.elts else g.target
+            if not isinstance(kv, ast.Name):
+                unknown.append(c)
+                continue
+            rejected = []
+            try:
+                for k in PATH_KEYS:
+                    if not all(bool(evaluate(t, {kv.id: k})) for t in g.ifs):
+                        rejected.append(k)
+            except Unknown:
+                unknown.append(c)
+                continue
+            bad = [k for k in rejected if not k.startswith("x-")]
+            if bad:
+                out.append((c, bad))
+    return out, n, unknown
+
+
+def rule_paths_unfiltered(repo: Repo, rep, rule: str = "R7.12") -> None:
+    """parse_operations turns every key of the Paths Object into operations.  Whatever is taken out of that mapping before it gets there is
+    gone without a trace: only specification extensions (`x-...`) may be left out."""
+    hz, n, unk = _paths_filters(ast.parse(_R712_EXAMPLE))
+    rep.require(len(hz) == 1 and "pets/{petId}" in hz[0][1] and "x-internal" not in hz[0][1], f"{rule}: the built-in positive example is no longer recognised - the rule is broken")
+    lm = repo.module("core.loader.loader")
+    calls = [c for c in ast.walk(lm.tree) if isinstance(c, ast.Call) and (dotted(c.func) or "").split(".")[-1] == "parse_operations"]
+    rep.require(len(calls) >= 1, f"{rule}: the call of parse_operations in the loader was not found (anchor)")
+    sub = f"{lm.relpath} the Paths Object handed to parse_operations"
+    po = repo.module("core.loader.operations.parser")
+    total = 0
+    found = False
+    for mod in (lm, po):
+        hz, n, unk = _paths_filters(mod.tree)
+        total += n
+        for c in unk:
+            rep.error(f"{rule}: cannot evaluate the filter `{norm(c)[:70]}` over the `paths` mapping in {mod.relpath}")
+        for c, bad in hz:
+            found = True
+            rep.violation(rule, sub, f"{mod.name}|paths-filtered|{','.join(bad)[:60]}",
+                          f"`{norm(c)[:80]}` leaves out path keys that are not `x-` extensions ({bad}): the operations declared under them are never parsed and disappear "
+                          "from every tag client without an error", f"{mod.relpath}:{c.lineno}")
+    if not found:
+        rep.ok(rule, sub, f"{total} filtered view(s) of `paths`: none leaves out a key other than an `x-` extension", f"{lm.relpath}:{calls[0].lineno if calls else 1}")
+
+
+# ------------------------------------------------------------------------------------------------ R7.13 every rendered method is written into the tag client
+def rule_every_method_written(repo: Repo, rep, rule: str = "R7.13") -> None:
+    """EndpointsEmitter renders one method per operation of a tag and hands the list to the visitor, which writes the client class.  The class
+    has every operation only if the list arrives and is written whole: it is not re-bound (de-duplicated, filtered, sliced) on the way and
+    the writing loop has no skip."""
+    ev = repo.module("visit.endpoint.endpoint_visitor")
+    cls = ev.classes.get("EndpointVisitor")
+    impl = cls.methods.get("_generate_endpoint_implementation") if cls else None
+    outer = cls.methods.get("emit_endpoint_client_class") if cls else None
+    if impl is None or outer is None:
+        raise AnalysisError(f"{rule}: EndpointVisitor.emit_endpoint_client_class / _generate_endpoint_implementation not found (anchor)")
+    from sa.flatten import flatten
+
+    fn = flatten(outer, select=lambda h: h.name == impl.name)
+    if not any(isinstance(c.func, ast.Attribute) and c.func.attr == "write_block" for c in calls_in(fn.node)):
+        fn = impl
+    p = next((a for a in fn.params if "method" in a and "code" in a), None)
+    if p is None:
+        raise AnalysisError(f"{rule}: the parameter carrying the rendered methods was not identified (anchor)")
+    L = Locals(fn.node)
+    sub = f"{ev.relpath}:EndpointVisitor writes every rendered method of the tag"
+    loops = []
+    for lp in own_nodes(fn.node):
+        if not isinstance(lp, ast.For):
+            continue
+        lvs = {x.id for x in ast.walk(lp.target) if isinstance(x, ast.Name)}
+        wb = [c for c in calls_in(lp) if isinstance(c.func, ast.Attribute) and c.func.attr in ("write_block", "write_line") and c.args and isinstance(c.args[0], ast.Name) and c.args[0].id in lvs]
+        if wb:
+            loops.append((lp, wb))
+    if not loops:
+        raise AnalysisError(f"{rule}: no loop writing the rendered methods (`write_block(<method>)`) found (anchor)")
+    lp, wb = loops[0]
+    it = lp.iter
+    if isinstance(it, ast.Call) and isinstance(it.func, ast.Name) and it.func.id == "enumerate" and it.args:
+        it = it.args[0]
+    problems = []
+    if not (isinstance(it, ast.Name) and it.id == p):
+        # the iterated list is a local: it must be a plain copy of the parameter
+        src = L.inline(it, stop=tuple(L.params))
+        if not (isinstance(src, ast.Name) and src.id == p) and not (isinstance(src, ast.Call) and isinstance(src.func, ast.Name) and src.func.id in ("list", "tuple") and len(src.args) == 1
+                                                                     and isinstance(src.args[0], ast.Name) and src.args[0].id == p):
+            defs = [v for _, v, _ in L.defs.get(it.id, []) if v is not None] if isinstance(it, ast.Name) else []
+            culprit = next((v for v in defs if not (isinstance(v, ast.Name) and v.id == p)), None)
+            problems.append((culprit if culprit is not None else lp, f"the loop iterates `{norm(culprit if culprit is not None else lp.iter)[:70]}`, not the list of rendered methods as it was passed in"))
+    rebinds = [st for st in own_nodes(fn.node) if isinstance(st, (ast.Assign, ast.AugAssign, ast.AnnAssign)) and any(
+        isinstance(t, ast.Name) and t.id == p for t in (st.targets if isinstance(st, ast.Assign) else [st.target]))]
+    for st in rebinds:
+        problems.append((st, f"`{norm(st)[:70]}` replaces the list of rendered methods before it is written"))
+    muts = [c for c in calls_in(fn.node) if isinstance(c.func, ast.Attribute) and isinstance(c.func.value, ast.Name) and c.func.value.id == p and c.func.attr in ("remove", "pop", "clear")]
+    for c in muts:
+        problems.append((c, f"`{norm(c)[:60]}` removes rendered methods from the list"))
+    from sa.model import parent as _par
+
+    for c in wb:
+        q = _par(c)
+        while q is not None and q is not lp:
+            if isinstance(q, (ast.If, ast.Try, ast.While)):
+                problems.append((q, f"the write of a method is conditional (`{norm(q)[:50]}`)"))
+                break
+            q = _par(q)
+    for x in ast.walk(lp):
+        if isinstance(x, (ast.Continue, ast.Break)):
+            problems.append((x, "the writing loop can skip or stop early"))
+    if problems:
+        node, why = problems[0]
+        rep.violation(rule, sub, f"{ev.name}:EndpointVisitor|methods-not-written-whole|{len(problems)}",
+                      f"{why}: operations rendered for the tag are missing from the client class (the class still inherits the Protocol's `...` stubs, so the call "
+                      "exists, awaits and returns None without sending a request)", fn.loc(node))
+    else:
+        rep.ok(rule, sub, f"`{p}` is written element by element, unconditionally, and is never re-bound or shortened", fn.loc(lp))
